@@ -2,12 +2,18 @@
 
   C15.I  the compiler numbers the children of every card kind exactly as Card::get_child does (symbolic walk of
          process_card's push_subindex/pop_subindex bookkeeping vs. the C16.S reference shape).
-  C15.P  the trace key handed to payload_to_error is the position of the failing instruction's opcode
-         (push_instruction keys the trace by opcode position).
+  C15.P  the trace key handed to the error constructor of the interpreter loop is the position of the failing
+         instruction's opcode (push_instruction keys the trace by opcode position). The constructor is found by what it
+         does (ExecutionError::new over program.trace[key] + the call stack): a closure of the loop function, a function,
+         or a thin wrapper forwarding its own parameter to one (class ErrorBuilders).
   C15.C  call frames record the CallFunction opcode position; the error trace walks frames innermost first.
   C15.K  compile errors raised inside Compiler carry the current card (Compiler::trace()).
+  C15.G  a card's own instructions are emitted at the card's own index.
+  C15.F  every active call frame contributes one trace entry (for loop or extend(filter_map(lookup)) over the frames).
+  C15.T  every opcode byte written to program.bytecode is written by the tracing emitter (push_instruction), without an
+         exemption for opcodes that "cannot fail": the budget test precedes dispatch, so Timeout can hit any instruction.
 """
-from cao.facts import hir_walk, hir_callee, hir_strip, hir_local_id, pat_variants, short, block_exprs, AnchorMissing, pat_bindings
+from cao.facts import hir_walk, hir_callee, hir_strip, hir_local_id, pat_variants, short, block_exprs, AnchorMissing, pat_bindings, hir_children
 from cao.rules import Rule, ok, bad, undecided, note
 from cao import cardshape as cs
 from cao import compwalk as cw
@@ -23,7 +29,9 @@ EXPLANATION = (
     "child at depth exactly 1, stack balanced. C15.P classifies, for each payload_to_error call site in Vm::_run, the "
     "expression passed as trace key: a local initialised from *instr_ptr before the opcode is consumed (or *instr_ptr "
     "itself before the increment) is the opcode position; *instr_ptr after the increment is the next instruction. "
-    "C15.C/K are argument-wiring checks by resolved callee. All hold for every program because they are facts about "
+    "C15.C/K are argument-wiring checks by resolved callee. C15.T follows every value converted from an Instruction to a "
+    "byte (cast, transmute, into; through locals, parameters, return values, aliases of the vector) to the place it is "
+    "written: only the function that also inserts the program.trace entry may write it to program.bytecode. All hold for every program because they are facts about "
     "the compiler's and interpreter's code. Not decided: completeness of the call chain for a particular run."
 )
 ASSUMPTIONS = [
@@ -124,6 +132,8 @@ def rule_i(F):
             for f in p["fields"]:
                 if f["pat"].get("k") == "bind":
                     w.env[f["pat"]["id"]] = (f["name"],)
+        elif p.get("k") == "bind" and "FunctionIr" in (p.get("ty") or ""):
+            w.env[p["id"]] = ()      # the function itself: `function.cards` is the place ('cards',)
     w.stack = ["top"]
     w.walk(pf.hir["body"])
     lists = [ev for ev in w.events if ev[0] == "list_elem"]
@@ -177,37 +187,326 @@ def is_deref_of(e, lid):
     return e is not None and e.get("k") == "un" and e["op"] == "Deref" and hir_local_id(e["e"]) == lid
 
 
+# ---- the error constructor, found by what it does -------------------------------------------------------------------
+
+def _constructs_error(body):
+    return any("ExecutionError::new" in n for y in hir_walk(body) if y.get("k") == "call" for n in hir_callee(y))
+
+
+def _is_trace_get(x):
+    """`<..>.trace.get(..)`: a lookup in the instruction -> card table of the program"""
+    return x.get("k") == "mcall" and x["name"] == "get" and (hu.field_chain(x["recv"]) or (None, []))[1][-1:] == ["trace"]
+
+
+def _single_inits(body):
+    """local id -> its only initialiser (let without later assignment) inside `body`"""
+    inits = {}
+    for x in hir_walk(body):
+        bl = x["block"] if x.get("k") == "block" else x["body"] if x.get("k") == "loop" else None
+        if bl is not None:
+            for st in bl["stmts"]:
+                if st["k"] == "let" and st["pat"].get("k") == "bind" and st.get("init") is not None:
+                    inits.setdefault(st["pat"]["id"], []).append(st["init"])
+        elif x.get("k") in ("assign", "assign_op"):
+            lid = hir_local_id(hu.strip_all(x["l"]))
+            if lid is not None:
+                inits.setdefault(lid, []).append(None)
+    return {k: v[0] for k, v in inits.items() if len(v) == 1 and v[0] is not None}
+
+
+def _root_local(e, inits, depth=0):
+    """the local a value-preserving expression (casts, borrows, single-assignment copies) stands for"""
+    e = hu.strip_all(e)
+    lid = hir_local_id(e) if e is not None else None
+    if lid is not None and lid in inits and depth < 4:
+        r = _root_local(inits[lid], inits, depth + 1)
+        return r if r is not None else lid
+    return lid
+
+
+def _param_ids(params):
+    return [p.get("id") if p.get("k") == "bind" else None for p in params]
+
+
+class ErrorBuilders:
+    """The code of the interpreter loop that turns a payload into a located ExecutionError, found by what it does:
+    `direct` are the bodies (closure of the loop function, or a crate function) that call ExecutionError::new and look the
+    key up in program.trace; `callables` maps everything the loop function can call to get such an error - the closure
+    local, the function, or a thin wrapper (closure/function) that forwards its own parameter as the key - to the index of
+    the argument that is the trace key."""
+
+    def __init__(self, F, run):
+        self.F = F
+        self.run = run
+        self.callables = {}      # ('local', hir id) | ('fn', short name) -> index of the key among the call's arguments
+        self.direct = []         # (owner Fn, params, body)
+        self.links = set()       # id(call) of forwarding calls inside wrappers
+        self._fn_cache = {}
+        closures = []
+        for x in hir_walk(run.hir["body"]):
+            bl = x["block"] if x.get("k") == "block" else x["body"] if x.get("k") == "loop" else None
+            if bl is None:
+                continue
+            for st in bl["stmts"]:
+                if st["k"] == "let" and st["pat"].get("k") == "bind" and st.get("init") is not None and hir_strip(st["init"]).get("k") == "closure":
+                    closures.append((st["pat"]["id"], hir_strip(st["init"])))
+        for _round in range(3):
+            for lid, clo in closures:
+                if ("local", lid) in self.callables:
+                    continue
+                k = self._key_of(run, clo["params"], clo["body"], 0)
+                if k is not None:
+                    self.callables[("local", lid)] = k
+        # functions the loop function calls directly
+        for x in hir_walk(run.hir["body"]):
+            if x.get("k") in ("call", "mcall"):
+                self.ident(x)
+
+    def ident(self, x):
+        """the builder a call expression invokes, or None"""
+        if x.get("k") == "call":
+            lid = hir_local_id(x["f"])
+            if lid is not None:
+                return ("local", lid) if ("local", lid) in self.callables else None
+        if x.get("k") not in ("call", "mcall"):
+            return None
+        for n in hir_callee(x):
+            if self._fn_key(n, 0) is not None:
+                return ("fn", n)
+        return None
+
+    def key_arg(self, x):
+        """the argument expression of call `x` (to a builder) that is the trace key"""
+        idn = self.ident(x)
+        if idn is None:
+            return None
+        k = self.callables[idn]
+        if idn[0] == "fn" and x["k"] == "mcall":
+            k -= 1          # the receiver is parameter 0
+        return x["args"][k] if 0 <= k < len(x["args"]) else None
+
+    def _fn_key(self, name, depth):
+        if ("fn", name) in self.callables:
+            return self.callables[("fn", name)]
+        if name in self._fn_cache or depth > 2:
+            return None
+        self._fn_cache[name] = None
+        g = self.F.fn(name, required=False)
+        if g is None or not g.hir or g.is_closure or g is self.run or not g.short.startswith("vm::"):
+            return None
+        k = self._key_of(g, g.hir["params"], g.hir["body"], depth)
+        if k is not None:
+            self.callables[("fn", name)] = k
+        return k
+
+    def _key_of(self, owner, params, body, depth):
+        pids = _param_ids(params)
+        inits = _single_inits(body)
+        if _constructs_error(body):
+            keys = set()
+            for y in hir_walk(body):
+                if _is_trace_get(y) and y["args"]:
+                    r = _root_local(y["args"][0], inits)
+                    if r is not None and r in pids:
+                        keys.add(pids.index(r))
+            if len(keys) == 1:
+                if not any(b is body for _o, _p, b in self.direct):
+                    self.direct.append((owner, params, body))
+                return keys.pop()
+            return None
+        # a wrapper: forwards one of its own parameters as the key of another builder
+        found = None
+        for y in hir_walk(body):
+            if y.get("k") not in ("call", "mcall"):
+                continue
+            idn = None
+            if y["k"] == "call" and hir_local_id(y["f"]) is not None:
+                if ("local", hir_local_id(y["f"])) in self.callables:
+                    idn = ("local", hir_local_id(y["f"]))
+            else:
+                for n in hir_callee(y):
+                    if self._fn_key(n, depth + 1) is not None:
+                        idn = ("fn", n)
+                        break
+            if idn is None:
+                continue
+            k = self.callables[idn]
+            if idn[0] == "fn" and y["k"] == "mcall":
+                k -= 1
+            if not (0 <= k < len(y["args"])):
+                continue
+            r = _root_local(y["args"][k], inits)
+            if r is not None and r in pids:
+                if found is not None and found != pids.index(r):
+                    return None
+                found = pids.index(r)
+                self.links.add(id(y))
+        return found
+
+    def bodies(self):
+        """the constructing bodies plus the bodies of the vm functions they call (helpers of the constructor)"""
+        out = []
+        seen = set()
+        for owner, _params, body in self.direct:
+            out.append((owner, body))
+            for y in hir_walk(body):
+                if y.get("k") in ("call", "mcall"):
+                    for n in hir_callee(y):
+                        g = self.F.fn(n, required=False)
+                        if g is not None and g.hir and not g.is_closure and g.short.startswith("vm::") and g.short not in seen and g is not self.run:
+                            seen.add(g.short)
+                            out.append((g, g.hir["body"]))
+        return out
+
+
+def error_builders(F, run):
+    eb = getattr(run, "_c15_error_builders", None)
+    if eb is None:
+        eb = ErrorBuilders(F, run)
+        run._c15_error_builders = eb
+    return eb
+
+
+class Interp:
+    """The interpreter loop, found by what it does (HIR): `switch_fn` holds the largest `match` over Instruction variants
+    in the vm module; `driver` is the function that fetches the opcode and advances the instruction pointer (`*ip += k`
+    on its `&mut usize` parameter) - the same function, or (dispatch split off into a private method) its caller."""
+
+    def __init__(self, F):
+        best = None
+        for g in F.fns:
+            if not g.hir or g.is_closure or not g.short.startswith("vm::"):
+                continue
+            for x in hir_walk(g.hir["body"]):
+                if x.get("k") == "match" and len(x["arms"]) > 20:
+                    n = sum(1 for a in x["arms"] if any("Instruction::" in nm for nm, _s, _p in pat_variants(a["pat"])))
+                    if n > 20 and (best is None or n > best[0]):
+                        best = (n, g, x)
+        if best is None:
+            raise AnchorMissing("match over the Instruction variants (interpreter dispatch) in the vm module")
+        _n, self.switch_fn, self.switch_match = best
+        self.driver = None
+        cands = [self.switch_fn] + [g for g in F.fns if g.hir and not g.is_closure and g.short.startswith("vm::") and g is not self.switch_fn
+                                    and any(self.switch_fn.short in hir_callee(y) for y in hir_walk(g.hir["body"]) if y.get("k") in ("call", "mcall"))]
+        for g in cands:
+            ip = [p["id"] for p in g.hir["params"] if p.get("k") == "bind" and p.get("ty", "").replace(" ", "") == "&mutusize"]
+            if not ip:
+                continue
+            bl, inc = find_block_with_increment(g.hir["body"], ip[0])
+            if bl is not None:
+                self.driver, self.ip_id, self.block, self.inc = g, ip[0], bl, inc
+                break
+        if self.driver is None:
+            raise AnchorMissing("opcode fetch (`*instr_ptr += 1` on the `&mut usize` parameter) of the interpreter loop")
+        # locals initialised from *instr_ptr before the increment, in the same block
+        self.start_locals = {}
+        for st in self.block["stmts"][:self.inc]:
+            if st["k"] == "let" and st["pat"].get("k") == "bind" and st.get("init") is not None and is_deref_of(st["init"], self.ip_id):
+                self.start_locals[st["pat"]["id"]] = st["pat"]["name"]
+        # dispatch split off: parameters of switch_fn that receive such a local at every call from the driver
+        self.dispatch_calls = []
+        self.start_params = {}
+        if self.switch_fn is not self.driver:
+            self.dispatch_calls = [y for y in hir_walk(self.driver.hir["body"]) if y.get("k") in ("call", "mcall")
+                                   and self.switch_fn.short in hir_callee(y)]
+            params = self.switch_fn.hir["params"]
+            for i, p in enumerate(params):
+                if p.get("k") != "bind":
+                    continue
+                names = set()
+                for y in self.dispatch_calls:
+                    ops = ([y["recv"]] if y["k"] == "mcall" else []) + list(y["args"])
+                    lid = hir_local_id(hu.strip_casts(ops[i])) if len(ops) == len(params) else None
+                    names.add(self.start_locals.get(lid))
+                if self.dispatch_calls and None not in names and len(names) == 1:
+                    self.start_params[p["id"]] = p["name"]
+
+    def arm_labels(self, fn):
+        """id(node) -> 'Variant+Variant' for every node inside an arm of the dispatch match of `fn`"""
+        labels = {}
+        for x in hir_walk(fn.hir["body"]):
+            if x.get("k") == "match" and len(x["arms"]) > 20:
+                for a in x["arms"]:
+                    names = [n.rsplit("::", 1)[-1] for n, _s, _p in pat_variants(a["pat"]) if "::" in n]
+                    for y in hir_walk(a["body"]):
+                        labels.setdefault(id(y), "+".join(names))
+        return labels
+
+
+def interp(F):
+    it = F.__dict__.get("_c15_interp")
+    if it is None:
+        it = Interp(F)
+        F.__dict__["_c15_interp"] = it
+    return it
+
+
+def _funnel_of(I, x, eb):
+    """Is call `x` (of the error constructor, in the driver) the one place that wraps whatever payload the split-off
+    dispatch function returned? True when one of its arguments is the value bound by the arm pattern of a `match` on the
+    call of the dispatch function (`Err(err) => ..`), or the parameter of a closure given to `.map_err` on that call."""
+    if I.switch_fn is I.driver:
+        return False
+    body = I.driver.hir["body"]
+    anc = hu.control_ancestors(body).get(id(x), ())
+    nodes = {id(y): y for y in hir_walk(body) if y.get("k") in ("match", "closure")}
+    arg_roots = set(_root_local(a, {}) for a in x["args"])
+    disp = set(id(y) for y in I.dispatch_calls)
+
+    def is_dispatch(e):
+        e = hu.strip_all(e)
+        while e is not None and e.get("k") == "match" and str(e.get("source", "")).startswith("TryDesugar"):
+            e = hu.strip_all(e["scrut"])
+        if e is not None and e.get("k") == "call" and any(n.endswith("Try::branch") for n in hir_callee(e)) and e["args"]:
+            e = hu.strip_all(e["args"][0])
+        return e is not None and id(e) in disp
+    for kind, nid in anc:
+        node = nodes.get(nid)
+        if node is None:
+            continue
+        if node["k"] == "match" and kind.startswith("arm") and is_dispatch(node["scrut"]):
+            ids = set(i for i, _n in pat_bindings(node["arms"][int(kind[3:])]["pat"]))
+            if ids & arg_roots:
+                return True
+        if node["k"] == "closure":
+            ids = set(i for p_ in node["params"] for i, _n in pat_bindings(p_))
+            if ids & arg_roots:
+                for y in hir_walk(body):
+                    if y.get("k") == "mcall" and y["name"] == "map_err" and is_dispatch(y["recv"]) and any(hir_strip(a) is node for a in y["args"]):
+                        return True
+    return False
+
+
+def _error_exits(body):
+    """the places of `body` where a failure leaves the function: `?` and `return <not Ok(..)>`"""
+    out = []
+    for y in hir_walk(body):
+        if y.get("k") == "match" and str(y.get("source", "")).startswith("TryDesugar"):
+            out.append(y)
+        elif y.get("k") == "ret" and y.get("e") is not None:
+            v = hir_strip(y["e"])
+            if v.get("k") == "call" and any(n.endswith("from_residual") for n in hir_callee(v)):
+                continue       # the return inside the `?` desugaring, counted with its match
+            f = hir_strip(v["f"]) if v.get("k") == "call" else None
+            is_ok = f is not None and f.get("k") == "path" and (short(f["path"]["res"].get("path", "")).endswith("::Ok") or
+                                                               short(f["path"]["res"].get("ctor_of", "")).endswith("Result::Ok"))
+            if not is_ok:
+                out.append(y)
+    return out
+
+
 def rule_p(F):
     res = []
-    from rules.c10 import dispatch_fn as _dispatch_fn
-    fn = _dispatch_fn(F)
-    ip_id = None
-    for p in fn.hir["params"]:
-        if p.get("k") == "bind" and p.get("ty", "").replace(" ", "") == "&mutusize":
-            ip_id = p["id"]
-    if ip_id is None:
-        raise AnchorMissing("instruction pointer parameter of Vm::_run")
-    # the error-constructing closure
-    pte_id = None
-    for x in hir_walk(fn.hir["body"]):
-        if x.get("k") == "block":
-            for st in x["block"]["stmts"]:
-                if st["k"] == "let" and st["pat"].get("k") == "bind" and st.get("init") is not None and hir_strip(st["init"]).get("k") == "closure":
-                    clo = hir_strip(st["init"])
-                    if any("ExecutionError::new" in n for y in hir_walk(clo["body"]) for n in hir_callee(y)):
-                        pte_id = st["pat"]["id"]
-                        pte_params = clo["params"]
-                        pte_body = clo["body"]
-    if pte_id is None:
-        raise AnchorMissing("payload_to_error closure in Vm::_run")
-    bl, inc = find_block_with_increment(fn.hir["body"], ip_id)
-    if bl is None:
-        raise AnchorMissing("`*instr_ptr += 1` in Vm::_run")
-    # locals initialised from *instr_ptr before the increment, in the same block
-    start_locals = {}
-    for st in bl["stmts"][:inc]:
-        if st["k"] == "let" and st["pat"].get("k") == "bind" and st.get("init") is not None and is_deref_of(st["init"], ip_id):
-            start_locals[st["pat"]["id"]] = st["pat"]["name"]
+    I = interp(F)
+    fn = I.driver
+    ip_id = I.ip_id
+    # the error constructor: whatever builds the ExecutionError from program.trace[key] (closure, function, or a thin
+    # wrapper forwarding to it)
+    eb = error_builders(F, fn)
+    if not eb.callables or not eb.direct:
+        raise AnchorMissing("error constructor (ExecutionError::new over program.trace[key]) reachable from Vm::_run")
+    bl, inc = I.block, I.inc
+    start_locals = I.start_locals
     # nodes by region
     before_ids, after_ids = set(), set()
     for n, st in enumerate(bl["stmts"]):
@@ -224,23 +523,28 @@ def rule_p(F):
         for y in hir_walk(bl["expr"]):
             after_ids.add(id(y))
     # arm labels for keys
-    labels = {}
-    for x in hir_walk(fn.hir["body"]):
-        if x.get("k") == "match" and len(x["arms"]) > 20:
-            for a in x["arms"]:
-                names = [n.rsplit("::", 1)[-1] for n, _s, _p in pat_variants(a["pat"]) if "::" in n]
-                for y in hir_walk(a["body"]):
-                    labels.setdefault(id(y), "+".join(names))
+    labels = I.arm_labels(fn)
     counters = {}
-    sites = [x for x in hir_walk(fn.hir["body"]) if x.get("k") == "call" and hir_local_id(x["f"]) == pte_id]
+    funnels = []         # (site, result) of the sites that wrap the payload returned by the split-off dispatch function
+    sites = [x for x in hir_walk(fn.hir["body"]) if x.get("k") in ("call", "mcall") and id(x) not in eb.links and eb.ident(x) is not None]
+    in_wrapper = set()
+    for x in hir_walk(fn.hir["body"]):
+        if x.get("k") == "closure" and any(id(y) in eb.links for y in hir_walk(x["body"])):
+            in_wrapper |= set(id(y) for y in hir_walk(x["body"]))
     for x in sites:
-        arg = x["args"][1]
+        arg = eb.key_arg(x)
+        if arg is None or id(x) in in_wrapper:
+            res.append(undecided("C15.P", "C15/P/%s/key-argument" % (labels.get(id(x)) or "constructor"), fn.loc(x.get("ln")),
+                                 "cannot tell which expression this call of the error constructor uses as trace key"))
+            continue
         lab = labels.get(id(x))
+        funnel = _funnel_of(I, x, eb)
         if id(x) in before_ids:
             region = "before"
             lab = lab or "pre-dispatch"
         elif id(x) in after_ids:
             region = "after"
+            lab = lab or ("dispatch" if funnel else "post-dispatch")
         else:
             region = "outside"
             lab = lab or "after-loop"
@@ -261,17 +565,45 @@ def rule_p(F):
                                "entry of the following instruction, not of the failing card" % lab))
         else:
             res.append(undecided("C15.P", key, fn.loc(x["ln"]), "trace key expression not recognised"))
-    # inside payload_to_error: the key is looked up in program.trace, frames walked innermost first
-    has_get = any(x.get("k") == "mcall" and x["name"] == "get" and (hu.field_chain(x["recv"]) or (None, []))[1][-1:] == ["trace"] for x in hir_walk(pte_body))
-    has_back = any(x.get("k") == "mcall" and x["name"] == "iter_backwards" for x in hir_walk(pte_body))
-    uses_src = any(x.get("k") == "field" and x["name"] == "src_instr_ptr" for x in hir_walk(pte_body))
-    if has_get and has_back and uses_src:
-        res.append(ok("C15.P", "C15/P/payload_to_error/shape", fn.loc(pte_body.get("ln")),
-                      "looks up program.trace[key], then frames via iter_backwards() by src_instr_ptr"))
-    else:
-        res.append(bad("C15.P", "C15/P/payload_to_error/shape", fn.loc(pte_body.get("ln")),
-                       "payload_to_error must look up program.trace at the key and walk call frames innermost-first by src_instr_ptr "
-                       "(trace lookup=%s iter_backwards=%s src_instr_ptr=%s)" % (has_get, has_back, uses_src)))
+        if funnel:
+            funnels.append((x, res.pop()))
+    # dispatch split off into a function that returns bare payloads: the one wrapping site stands for every error exit
+    # of that function; each exit is an instance, decided by the key the wrapper uses
+    if funnels:
+        g = I.switch_fn
+        glabels = I.arm_labels(g)
+        worst = sorted((r for _x, r in funnels), key=lambda r: {"violation": 0, "undecided": 1}.get(r["status"], 2))[0]
+        wrap_ln = funnels[0][0].get("ln")
+        for y in _error_exits(g.hir["body"]):
+            lab = glabels.get(id(y)) or "dispatch"
+            n = counters.get(lab, 0)
+            counters[lab] = n + 1
+            key = "C15/P/%s/%d" % (lab, n)
+            if worst["status"] == "ok":
+                res.append(ok("C15.P", key, g.loc(y.get("ln")), "the payload leaves %s here and is wrapped once by %s (line %s): %s"
+                              % (g.name, fn.name, wrap_ln, worst["msg"])))
+            elif worst["status"] == "violation":
+                res.append(bad("C15.P", key, g.loc(y.get("ln")), "the payload leaves %s here and is wrapped by %s (line %s): %s"
+                               % (g.name, fn.name, wrap_ln, worst["msg"].replace("error of dispatch", "error of %s" % lab))))
+            else:
+                res.append(undecided("C15.P", key, g.loc(y.get("ln")), worst["msg"]))
+    elif I.switch_fn is not I.driver:
+        res.append(undecided("C15.P", "C15/P/dispatch/wrap-site", fn.loc(), "the dispatch is split off into %s but the place where %s attaches "
+                             "the location to the payload it returns was not recognised" % (I.switch_fn.name, fn.name)))
+    # inside the constructor: the key is looked up in program.trace, frames walked innermost first
+    for n, (owner, _params, body) in enumerate(eb.direct):
+        nodes = [x for _g, b in eb.bodies() for x in hir_walk(b)] if len(eb.direct) == 1 else list(hir_walk(body))
+        has_get = any(_is_trace_get(x) for x in nodes)
+        has_back = any(x.get("k") == "mcall" and x["name"] == "iter_backwards" for x in nodes)
+        uses_src = any(x.get("k") == "field" and x["name"] == "src_instr_ptr" for x in nodes)
+        key = "C15/P/payload_to_error/shape" + ("" if n == 0 else "#%d" % n)
+        if has_get and has_back and uses_src:
+            res.append(ok("C15.P", key, owner.loc(body.get("ln")),
+                          "looks up program.trace[key], then frames via iter_backwards() by src_instr_ptr"))
+        else:
+            res.append(bad("C15.P", key, owner.loc(body.get("ln")),
+                           "payload_to_error must look up program.trace at the key and walk call frames innermost-first by src_instr_ptr "
+                           "(trace lookup=%s iter_backwards=%s src_instr_ptr=%s)" % (has_get, has_back, uses_src)))
     return res
 
 
@@ -281,25 +613,22 @@ def rule_p(F):
 
 def rule_c(F):
     res = []
-    from rules.c10 import dispatch_fn as _dispatch_fn
-    run = _dispatch_fn(F)
-    ip_id = [p["id"] for p in run.hir["params"] if p.get("k") == "bind" and p.get("ty", "").replace(" ", "") == "&mutusize"][0]
-    bl, inc = find_block_with_increment(run.hir["body"], ip_id)
-    start_locals = set()
-    if bl is not None:
-        for st in bl["stmts"][:inc]:
-            if st["k"] == "let" and st["pat"].get("k") == "bind" and st.get("init") is not None and is_deref_of(st["init"], ip_id):
-                start_locals.add(st["pat"]["id"])
-    # 1. _run passes a start local as the call position
-    calls = [x for x in hir_walk(run.hir["body"]) if x.get("k") == "call" and "vm::instr_execution::instr_call_function" in hir_callee(x)]
+    I = interp(F)
+    run = I.driver
+    # 1. the interpreter passes a start local (or, with the dispatch split off, the parameter that receives it) as the call position
+    calls = []
+    for g, starts_of in ((I.driver, set(I.start_locals)),) + (((I.switch_fn, set(I.start_params)),) if I.switch_fn is not I.driver else ()):
+        for x in hir_walk(g.hir["body"]):
+            if x.get("k") == "call" and "vm::instr_execution::instr_call_function" in hir_callee(x):
+                calls.append((g, starts_of, x))
     if not calls:
         raise AnchorMissing("call of instr_call_function in Vm::_run")
     icf = F.fn("vm::instr_execution::instr_call_function")
     pnames = [p.get("name") for p in icf.hir["params"]]
-    for x in calls:
+    for g, start_locals, x in calls:
         # which argument feeds push_call_frame's src_ptr? resolve below; here: find args that are start locals
         starts = [n for n, a in enumerate(x["args"]) if hir_local_id(hu.strip_casts(a)) in start_locals]
-        res.append((ok if starts else bad)("C15.C", "C15/C/_run/passes-opcode-position", run.loc(x["ln"]),
+        res.append((ok if starts else bad)("C15.C", "C15/C/_run/passes-opcode-position", g.loc(x["ln"]),
                    "CallFunction passes the opcode position (argument %s)" % starts if starts else
                    "instr_call_function is not given the position of the CallFunction opcode"))
         start_arg = starts[0] if starts else None
@@ -393,8 +722,7 @@ def rule_k(F):
                 res.append(bad("C15.K", "C15/K/%s/literal" % f.name, f.loc(x["ln"]), "CompilationError literal bypasses with_loc/self.trace()"))
     # push_instruction records self.trace() - built from the *current* namespace and index - for the instruction it emits
     pi = F.fn("compiler::Compiler::push_instruction")
-    ins = [x for x in hir_walk(pi.hir["body"]) if x.get("k") == "mcall" and x["name"] == "insert" and
-           (hu.field_chain(x["recv"]) or (None, []))[1][-1:] == ["trace"]]
+    ins = _trace_inserts(pi)
     key = "C15/K/push_instruction/records-current-trace"
     if not ins:
         res.append(bad("C15.K", key, pi.loc(), "push_instruction does not record a trace entry"))
@@ -404,6 +732,12 @@ def rule_k(F):
             # peel clone()
             while v is not None and v.get("k") == "mcall" and v["name"] in ("clone", "to_owned"):
                 v = hu.strip_all(v["recv"])
+            # a local of push_instruction initialised once from self.trace() is evaluated at this emission as well
+            lid = hir_local_id(v) if v is not None else None
+            if lid is not None and len(hu.let_inits(pi).get(lid, [])) == 1:
+                v = hu.strip_all(hu.let_inits(pi)[lid][0])
+                while v is not None and v.get("k") == "mcall" and v["name"] in ("clone", "to_owned"):
+                    v = hu.strip_all(v["recv"])
             fresh = v is not None and v.get("k") == "mcall" and "compiler::Compiler::trace" in hir_callee(v)
             if fresh:
                 res.append(ok("C15.K", key, pi.loc(x["ln"]), "the entry is self.trace() evaluated at the emission"))
@@ -472,75 +806,510 @@ def rule_g(F):
 # C15.F  every active call frame contributes one trace entry
 # ---------------------------------------------------------------------------------------------------
 
-def rule_f(F):
-    """In the error constructor of Vm::_run (the closure that walks the call stack): inside the loop over the call
-    stack, the push of a trace entry may only be conditional on the lookup of that frame's call position in
-    program.trace succeeding; the loop body has no `continue`, `break` or `return`, and no other condition."""
-    res = []
-    from rules.c10 import dispatch_fn as _dispatch_fn
-    run = _dispatch_fn(F)
-    loops = []
-    for x in hir_walk(run.hir["body"]):
-        if x.get("k") == "match" and str(x.get("source", "")).startswith("ForLoopDesugar"):
-            scrut = hir_strip(x["scrut"])
-            if scrut.get("k") == "call" and scrut["args"]:
-                it = hu.strip_casts(scrut["args"][0])
-                if any(y.get("k") == "mcall" and y["name"] in ("iter_backwards", "iter") and "CallFrame" in (y.get("ty") or "")
-                       for y in hir_walk(it)):
-                    loops.append(x)
-    if not loops:
-        raise AnchorMissing("loop over the call stack in the error constructor of Vm::_run")
-    for n, lp in enumerate(loops):
-        key = "C15/F/_run/one-trace-entry-per-frame%s" % ("" if n == 0 else "#%d" % n)
-        # loop body = the Some(..) arm of the inner match
-        body = None
-        elem_ids = []
-        for y in hir_walk(lp):
-            if y is not lp and y.get("k") == "match" and str(y.get("source", "")).startswith("ForLoopDesugar"):
-                for a in y["arms"]:
-                    if a["body"].get("k") != "break":
-                        body = a["body"]
-                        elem_ids = [i for i, _n in pat_bindings(a["pat"])]
+_LOSSY_ADAPTORS = ("filter", "skip", "skip_while", "take", "take_while", "step_by", "rev", "chain", "zip", "last", "nth", "find",
+                   "find_map", "max", "min", "max_by_key", "min_by_key", "next", "next_back", "dedup", "cycle", "scan", "map_while")
+
+
+def _peel_option_copy(e):
+    """`X.cloned()`, `X.copied()`, `X.map(Clone::clone)`-like wrappers keep Some/None: return X"""
+    e = hu.strip_casts(e)
+    while e is not None and e.get("k") == "mcall" and e["name"] in ("cloned", "copied") and not e["args"]:
+        e = hu.strip_casts(e["recv"])
+    return e
+
+
+def _is_frame_lookup(e, elem_ids):
+    """`<..>.trace.get(&<frame>.src_instr_ptr)` (optionally cloned/copied), <frame> one of the bindings `elem_ids`"""
+    e = _peel_option_copy(e)
+    if e is None or not _is_trace_get(e) or not e["args"]:
+        return False
+    a = hu.strip_all(e["args"][0])
+    return (a is not None and a.get("k") == "field" and a["name"] == "src_instr_ptr"
+            and hir_local_id(hu.strip_all(a["e"])) in elem_ids)
+
+
+def _judge_loop_body(body, elem_ids, looked_up):
+    """problems of a `for` body over the call frames (`looked_up`: the iterator already yields the looked-up entries)"""
+    jumps = [y for y in hir_walk(body) if y.get("k") in ("continue", "break", "ret")]
+    pushes = [y for y in hir_walk(body) if y.get("k") == "mcall" and y["name"] == "push" and "Trace" in (hir_strip(y["recv"]).get("ty") or "") + (y["recv"].get("ty_adj") or "")]
+    if not pushes:
+        return None
+    anc = hu.control_ancestors(body)
+    probs = []
+    if jumps:
+        probs.append("the loop body contains `%s` (line %s): frames can be skipped" % (jumps[0]["k"], jumps[0].get("ln")))
+    ifs = {id(y): y for y in hir_walk(body) if y.get("k") in ("if", "match")}
+    for p in pushes:
+        for kind, nid in anc.get(id(p), ()):
+            node = ifs.get(nid)
+            if node is None:
+                probs.append("push under a %s" % kind)
+                continue
+            cond = hir_strip(node["cond"]) if node.get("k") == "if" else hir_strip(node["scrut"])
+            init = cond.get("init") if cond.get("k") == "let" else cond
+            # allowed: <..>.trace.get(&<elem>.src_instr_ptr) being Some
+            if looked_up or init is None or not _is_frame_lookup(init, elem_ids):
+                probs.append("a trace entry is only pushed under a condition other than `program.trace.get(&frame.src_instr_ptr)` "
+                             "being Some (line %s)" % node.get("ln"))
+    return probs
+
+
+def _frame_walks(body):
+    """Every iteration over the call frames in `body`: (source node, [adaptor mcalls, innermost first], consumer kind,
+    consumer node). consumer kind: 'for' (a for loop over the chain), 'arg' (the chain is an argument of a call), None."""
+    parent = {}
+    for x in hir_walk(body):
+        for c in hir_children(x):
+            parent[id(c)] = x
+    out = []
+    for y in hir_walk(body):
+        if not (y.get("k") == "mcall" and y["name"] in ("iter_backwards", "iter") and "CallFrame" in (y.get("ty") or "")):
+            continue
+        cur, chain, kind, cons = y, [], None, None
+        while True:
+            p = parent.get(id(cur))
+            while p is not None and (p.get("k") in ("drop_temps", "use", "type", "addr_of") or
+                                     (p.get("k") == "block" and not p["block"]["stmts"] and p["block"].get("expr") is cur)):
+                cur, p = p, parent.get(id(p))
+            if p is None:
                 break
-        if body is None:
-            res.append(undecided("C15.F", key, run.loc(lp.get("ln")), "loop body not found"))
-            continue
-        jumps = [y for y in hir_walk(body) if y.get("k") in ("continue", "break", "ret")]
-        pushes = [y for y in hir_walk(body) if y.get("k") == "mcall" and y["name"] == "push" and "Trace" in (hir_strip(y["recv"]).get("ty") or "") + (y["recv"].get("ty_adj") or "")]
-        if not pushes:
-            res.append(bad("C15.F", key, run.loc(lp.get("ln")), "the loop over the call stack does not push trace entries"))
-            continue
-        anc = hu.control_ancestors(body)
-        probs = []
-        if jumps:
-            probs.append("the loop body contains `%s` (line %s): frames can be skipped" % (jumps[0]["k"], jumps[0].get("ln")))
-        ifs = {id(y): y for y in hir_walk(body) if y.get("k") in ("if", "match")}
-        for p in pushes:
-            for kind, nid in anc.get(id(p), ()):
-                node = ifs.get(nid)
-                if node is None:
-                    probs.append("push under a %s" % kind)
-                    continue
-                cond = hir_strip(node["cond"]) if node.get("k") == "if" else hir_strip(node["scrut"])
-                init = cond.get("init") if cond.get("k") == "let" else cond
-                init = hu.strip_casts(init) if init is not None else None
-                # allowed: <..>.trace.get(&<elem>.src_instr_ptr)
-                good = False
-                if init is not None and init.get("k") == "mcall" and init["name"] == "get":
-                    fc = hu.field_chain(init["recv"])
-                    arg_fields = [z for z in hir_walk(init["args"][0]) if z.get("k") == "field" and z["name"] == "src_instr_ptr"
-                                  and hir_local_id(hu.strip_all(z["e"])) in elem_ids]
-                    if fc and fc[1][-1:] == ["trace"] and arg_fields:
-                        good = True
-                if not good:
-                    probs.append("a trace entry is only pushed under a condition other than `program.trace.get(&frame.src_instr_ptr)` "
-                                 "being Some (line %s)" % node.get("ln"))
+            if p.get("k") == "mcall" and p["recv"] is cur:
+                chain.append(p)
+                cur = p
+                continue
+            if p.get("k") == "call" and any(a is cur for a in p["args"]) and any(n.endswith("into_iter") for n in hir_callee(p)):
+                q = parent.get(id(p))
+                if q is not None and q.get("k") == "match" and str(q.get("source", "")).startswith("ForLoopDesugar"):
+                    kind, cons = "for", q
+                    break
+                cur = p
+                continue
+            if p.get("k") in ("mcall", "call") and any(a is cur for a in p["args"]):
+                kind, cons = "arg", p
+            break
+        out.append((y, chain, kind, cons))
+    return out
+
+
+def rule_f(F):
+    """In the error constructor of the interpreter loop (whatever walks the call stack to build the trace): every frame
+    yields one trace entry, conditional only on the lookup of that frame's call position in program.trace succeeding.
+    Accepted forms: a `for` over the frames whose body pushes under `if let Some(..) = program.trace.get(&frame.src_instr_ptr)`
+    only (no `continue`/`break`/`return`, no other condition), or `trace.extend(frames.filter_map(|f| program.trace.get(
+    &f.src_instr_ptr).cloned()))` (also flat_map, map(..).flatten()); an adaptor that drops or reorders frames (filter,
+    skip, take, step_by, rev, ..) is a violation."""
+    res = []
+    run = interp(F).driver
+    eb = error_builders(F, run)
+    walks = []
+    for owner, body in (eb.bodies() if eb.direct else [(run, run.hir["body"])]):
+        for w in _frame_walks(body):
+            walks.append((owner, w))
+    if not walks:
+        raise AnchorMissing("loop over the call stack in the error constructor of Vm::_run")
+    for n, (owner, (src, chain, kind, cons)) in enumerate(walks):
+        key = "C15/F/_run/one-trace-entry-per-frame%s" % ("" if n == 0 else "#%d" % n)
+        loc = owner.loc((cons or src).get("ln"))
+        skipped = "not every active call frame contributes its call card to the error trace: %s; trace[1..] is no longer the " \
+                  "chain of call cards (e.g. direct recursion through one call card has equal neighbouring frames)"
+        # the adaptor chain between the frames and their consumer
+        state, probs, unknown = "frames", [], None
+        for a in chain:
+            nm = a["name"]
+            clo = hir_strip(a["args"][0]) if a["args"] else None
+            if nm in ("into_iter", "by_ref"):
+                continue
+            if nm in _LOSSY_ADAPTORS:
+                probs.append("the frames pass through `.%s(..)` (line %s): frames can be skipped or reordered" % (nm, a.get("ln")))
+                continue
+            if nm in ("filter_map", "flat_map", "map") and state == "frames" and clo is not None and clo.get("k") == "closure":
+                ids = [i for p_ in clo["params"] for i, _n in pat_bindings(p_)]
+                if _is_frame_lookup(clo["body"], ids):
+                    state = "entries" if nm != "map" else "options"
+                elif any(z.get("k") in ("if", "match", "ret") for z in hir_walk(clo["body"])):
+                    probs.append("a trace entry is only produced under a condition other than `program.trace.get(&frame.src_instr_ptr)` "
+                                 "being Some (line %s)" % a.get("ln"))
+                else:
+                    unknown = "closure of .%s(..) is not the plain lookup of the frame's call position" % nm
+                continue
+            if nm == "flatten" and state == "options":
+                state = "entries"
+                continue
+            if nm in ("cloned", "copied") and state in ("entries", "options"):
+                continue
+            unknown = "iterator adaptor .%s(..) not recognised" % nm
         if probs:
-            res.append(bad("C15.F", key, run.loc(lp.get("ln")),
-                           "not every active call frame contributes its call card to the error trace: %s; trace[1..] is no longer the "
-                           "chain of call cards (e.g. direct recursion through one call card has equal neighbouring frames)" % "; ".join(probs)))
+            res.append(bad("C15.F", key, loc, skipped % "; ".join(probs)))
+            continue
+        if unknown:
+            res.append(undecided("C15.F", key, loc, unknown))
+            continue
+        if kind == "for":
+            # loop body = the Some(..) arm of the inner match
+            body, elem_ids = None, []
+            for y in hir_walk(cons):
+                if y is not cons and y.get("k") == "match" and str(y.get("source", "")).startswith("ForLoopDesugar"):
+                    for a in y["arms"]:
+                        if a["body"].get("k") != "break":
+                            body = a["body"]
+                            elem_ids = [i for i, _n in pat_bindings(a["pat"])]
+                    break
+            if body is None or state == "options":
+                res.append(undecided("C15.F", key, loc, "loop body not found"))
+                continue
+            probs = _judge_loop_body(body, elem_ids, state == "entries")
+            if probs is None:
+                res.append(bad("C15.F", key, loc, "the loop over the call stack does not push trace entries"))
+            elif probs:
+                res.append(bad("C15.F", key, loc, skipped % "; ".join(probs)))
+            else:
+                res.append(ok("C15.F", key, loc, "each frame's call position is looked up and pushed, no frame is skipped"))
+        elif kind == "arg" and cons.get("k") == "mcall" and cons["name"] == "extend" and state == "entries" and \
+                "Trace" in (hir_strip(cons["recv"]).get("ty") or "") + (cons["recv"].get("ty_adj") or ""):
+            under = hu.control_ancestors(eb_body_of(eb, owner, cons)).get(id(cons), ())
+            if under:
+                res.append(bad("C15.F", key, loc, skipped % ("the frames are only appended under a %s" % under[0][0])))
+            else:
+                res.append(ok("C15.F", key, loc, "the trace is extended with the looked-up call position of every frame, in order"))
         else:
-            res.append(ok("C15.F", key, run.loc(lp.get("ln")), "each frame's call position is looked up and pushed, no frame is skipped"))
+            res.append(undecided("C15.F", key, loc, "what consumes the iteration over the call frames is not recognised"))
+    return res
+
+
+def eb_body_of(eb, owner, node):
+    for g, b in eb.bodies():
+        if g is owner and any(x is node for x in hir_walk(b)):
+            return b
+    return owner.hir["body"]
+
+
+# ---------------------------------------------------------------------------------------------------
+# C15.T  every emitted opcode has a trace entry
+# ---------------------------------------------------------------------------------------------------
+
+INSTR_TY = "instruction::Instruction"
+_VEC_WRITERS = ("push", "insert", "extend", "extend_from_slice", "resize", "append", "extend_from_within", "splice", "fill",
+                "copy_from_slice", "push_within_capacity", "try_push", "push_unchecked")
+_PTR_WRITERS = ("write", "write_unaligned", "write_volatile", "write_bytes", "copy_nonoverlapping", "copy", "replace")
+_COMPARE = ("Eq", "Ne", "Lt", "Le", "Gt", "Ge")
+_TRANSPARENT_KINDS = ("drop_temps", "use", "type", "cast", "array", "tup", "addr_of", "repeat", "un", "index", "field")
+
+
+def _is_instr_ty(t):
+    return (t or "").replace("&mut ", "").replace("&", "").strip().endswith(INSTR_TY)
+
+
+def _parents(body):
+    """id(node) -> parent node; the initialiser of `let PAT = init` has the pseudo parent {'k': '#let', 'pat': PAT}"""
+    par = {}
+    for x in hir_walk(body):
+        bl = x["block"] if x.get("k") == "block" else x["body"] if x.get("k") == "loop" else None
+        if bl is not None:
+            for st in bl["stmts"]:
+                if st["k"] == "let" and st.get("init") is not None:
+                    par[id(st["init"])] = {"k": "#let", "pat": st["pat"], "ln": st["init"].get("ln"), "owner": x}
+        for c in hir_children(x):
+            par.setdefault(id(c), x)
+    return par
+
+
+def _fn_parents(g):
+    p = getattr(g, "_c15_parents", None)
+    if p is None:
+        p = _parents(g.hir["body"])
+        g._c15_parents = p
+    return p
+
+
+def _opcode_conversions(g):
+    """expressions of type u8 made from a value of type Instruction (`X as u8`, transmute, into/from, a method of the enum)"""
+    out = []
+    for x in hir_walk(g.hir["body"]):
+        k = x.get("k")
+        if k == "cast" and x.get("ty") == "u8" and _is_instr_ty(hir_strip(x["e"]).get("ty")):
+            out.append(x)
+        elif k in ("call", "mcall") and x.get("ty") == "u8":
+            ops = ([x["recv"]] if k == "mcall" else []) + list(x["args"])
+            if any(_is_instr_ty(hir_strip(a).get("ty")) for a in ops):
+                out.append(x)
+        if k in ("call", "mcall"):
+            # the enum value itself handed to a generic byte writer (write_to_vec(Instruction::X, &mut bytes))
+            ops = ([x["recv"]] if k == "mcall" else []) + list(x["args"])
+            if any("Vec<u8>" in ((hir_strip(a).get("ty") or "") + (a.get("ty_adj") or "")) for a in ops):
+                out.extend(a for a in ops if _is_instr_ty(hir_strip(a).get("ty")) and not (hir_strip(a).get("ty") or "").startswith("&"))
+    return out
+
+
+def _bytecode_target(F, g, e, depth=0):
+    """Is `e` (receiver / &mut argument / pointer) the program's bytecode vector? True / False (another named place) / None"""
+    e = hu.strip_all(e)
+    if e is None or depth > 4:
+        return None
+    if e.get("k") == "mcall" and e["name"] in ("as_mut_ptr", "as_mut_slice", "as_mut", "add", "offset", "wrapping_add", "cast",
+                                               "borrow_mut", "deref_mut", "as_mut_ptr_range", "spare_capacity_mut", "by_ref"):
+        return _bytecode_target(F, g, e["recv"], depth + 1)
+    if e.get("k") == "index":
+        return _bytecode_target(F, g, e["e"], depth + 1)
+    fc = hu.field_chain(e)
+    if fc is not None and fc[1]:
+        return fc[1][-1] == "bytecode"
+    lid = hir_local_id(e)
+    if lid is not None:
+        inits = hu.let_inits(g).get(lid, [])
+        if len(inits) == 1:
+            return _bytecode_target(F, g, inits[0], depth + 1)
+        pids = _param_ids(g.hir["params"])
+        if lid in pids and depth < 2:
+            # a parameter: what do the callers pass?
+            verdicts = set()
+            for h, call in _call_sites(F, g):
+                args = ([call["recv"]] if call["k"] == "mcall" else []) + list(call["args"])
+                i = pids.index(lid)
+                if call["k"] == "mcall" and len(args) != len(pids):
+                    return None
+                verdicts.add(_bytecode_target(F, h, args[i], depth + 2) if i < len(args) else None)
+            if verdicts == {True}:
+                return True
+            if verdicts == {False}:
+                return False
+    return None
+
+
+def _call_sites(F, g):
+    idx = getattr(F, "_c15_call_sites", None)
+    if idx is None:
+        idx = {}
+        for h in F.fns:
+            if not h.hir or h.is_closure:
+                continue
+            for x in hir_walk(h.hir["body"]):
+                if x.get("k") in ("call", "mcall"):
+                    for n in hir_callee(x):
+                        idx.setdefault(n, []).append((h, x))
+        F._c15_call_sites = idx
+    return idx.get(g.short, [])
+
+
+def _byte_flow(F, g, node, depth=0, seen=None):
+    """Where does the value of `node` (an opcode byte) end up? list of ('write', fn, ln, how) | ('unknown', fn, ln, why);
+    an empty list = it is only compared / inspected."""
+    seen = set() if seen is None else seen
+    if id(node) in seen:
+        return []
+    seen.add(id(node))
+    if depth > 3:
+        return [("unknown", g, node.get("ln"), "value flow too deep to follow")]
+    par = _fn_parents(g)
+    cur = node
+    while True:
+        p = par.get(id(cur))
+        if p is None:
+            # value of the function body: returned to the callers
+            sites = _call_sites(F, g)
+            if not sites:
+                return [("unknown", g, cur.get("ln"), "the byte is returned by %s, no caller found" % g.name)]
+            out = []
+            for h, call in sites:
+                out += _byte_flow(F, h, call, depth + 1, seen)
+            return out
+        k = p.get("k")
+        if k == "index" and cur is p.get("idx"):
+            return []          # used as an index: inspected, not stored
+        if k in _TRANSPARENT_KINDS or (k == "block" and p["block"].get("expr") is cur):
+            cur = p
+            continue
+        if k in ("if", "match") and cur is not p.get("cond") and cur is not p.get("scrut"):
+            cur = p            # value of a branch = value of the if/match
+            continue
+        if k in ("if", "match") or (k == "bin" and p["op"] in _COMPARE) or k == "block":
+            return []          # inspected / discarded
+        if k == "ret":
+            sites = _call_sites(F, g)
+            out = []
+            for h, call in sites:
+                out += _byte_flow(F, h, call, depth + 1, seen)
+            return out or [("unknown", g, cur.get("ln"), "the byte is returned by %s, no caller found" % g.name)]
+        if k == "#let" or (k == "assign" and cur is p["r"] and hir_local_id(p["l"]) is not None):
+            if k == "#let":
+                ids = [i for i, _n in pat_bindings(p["pat"])]
+            else:
+                ids = [hir_local_id(p["l"])]
+            out = []
+            for y in hir_walk(g.hir["body"]):
+                if y.get("k") == "path" and y["path"]["res"]["k"] == "local" and y["path"]["res"]["id"] in ids:
+                    q = par.get(id(y))
+                    if q is not None and q.get("k") == "assign" and q["l"] is y:
+                        continue
+                    out += _byte_flow(F, g, y, depth + 1, seen)
+            return out
+        if k in ("assign", "assign_op") and cur is p["r"]:
+            t = _bytecode_target(F, g, p["l"])
+            if t is True:
+                return [("write", g, p.get("ln"), "assigned into the bytecode")]
+            if t is False:
+                return []
+            return [("unknown", g, p.get("ln"), "assigned to a place that is not recognised")]
+        if k == "call" and hir_strip(p["f"]).get("k") == "path" and hir_strip(p["f"])["path"]["res"].get("ctor_of") and cur is not p["f"]:
+            cur = p            # Some(byte), Wrapper(byte): the aggregate contains the byte
+            continue
+        if k in ("call", "mcall"):
+            names = hir_callee(p)
+            args = list(p["args"])
+            if k == "mcall" and p["recv"] is cur:
+                if p["name"] in ("clone", "into", "to_le_bytes", "to_ne_bytes", "to_be_bytes", "to_owned", "to_vec", "iter", "into_iter",
+                                 "copied", "cloned", "as_slice", "as_ref", "borrow"):
+                    cur = p
+                    continue
+                return [] if p["name"] in ("eq", "ne", "cmp", "partial_cmp", "fmt", "hash") else \
+                    [("unknown", g, p.get("ln"), "method .%s() on the opcode byte" % p["name"])]
+            last = (names[0] if names else p.get("name", "?")).rsplit("::", 1)[-1]
+            # a write into a byte vector / through a pointer
+            if k == "mcall" and last in _VEC_WRITERS:
+                t = _bytecode_target(F, g, p["recv"])
+            elif last in _PTR_WRITERS and args and cur is not args[0] and "*mut" in (hir_strip(args[0]).get("ty") or ""):
+                t = _bytecode_target(F, g, args[0])
+            else:
+                t = "no-write"
+                vec_args = [a for a in args if a is not cur and "Vec<u8>" in ((hir_strip(a).get("ty") or "") + (a.get("ty_adj") or ""))]
+                if vec_args:      # write_to_vec(value, &mut vec) and the like
+                    ts = set(_bytecode_target(F, g, a) for a in vec_args)
+                    t = True if True in ts else (None if None in ts else False)
+            if t is True:
+                return [("write", g, p.get("ln"), "`%s`" % last)]
+            if t is False:
+                return []
+            if t is None:
+                return [("unknown", g, p.get("ln"), "written by `%s` to a byte vector that is not recognised" % last)]
+            # passed to a function of the crate: follow the parameter
+            for n in names:
+                h = F.fn(n, required=False)
+                if h is None or not h.hir or h.is_closure:
+                    continue
+                params = list(h.hir["params"])
+                ops = ([p["recv"]] if k == "mcall" else []) + args
+                if len(params) != len(ops):
+                    continue
+                i = [n_ for n_, a in enumerate(ops) if a is cur]
+                if not i or params[i[0]].get("k") != "bind":
+                    continue
+                pid = params[i[0]]["id"]
+                out = []
+                for y in hir_walk(h.hir["body"]):
+                    if y.get("k") == "path" and y["path"]["res"]["k"] == "local" and y["path"]["res"]["id"] == pid:
+                        out += _byte_flow(F, h, y, depth + 1, seen)
+                return out
+            if any(n.startswith(("core::fmt", "std::fmt", "core::panicking", "std::panicking", "core::cmp", "std::cmp")) for n in names):
+                return []
+            return [("unknown", g, p.get("ln"), "passed to `%s`" % (names[0] if names else p.get("name", "?")))]
+        if k == "struct" or k == "closure":
+            return [("unknown", g, p.get("ln"), "stored in a %s" % k)]
+        return [("unknown", g, p.get("ln"), "used in a `%s` expression" % k)]
+
+
+def _place_last_field(g, e, depth=0):
+    """last field name of the place an expression denotes, through borrows and single-assignment aliases
+    (`let t = &mut self.program.trace; t.insert(..)` -> 'trace')"""
+    fc = hu.field_chain(e)
+    if fc is not None and fc[1]:
+        return fc[1][-1]
+    lid = hir_local_id(hu.strip_all(e))
+    if lid is not None and depth < 3:
+        inits = hu.let_inits(g).get(lid, [])
+        if len(inits) == 1:
+            return _place_last_field(g, inits[0], depth + 1)
+    return None
+
+
+def _trace_inserts(g):
+    return [x for x in hir_walk(g.hir["body"]) if x.get("k") == "mcall" and x["name"] == "insert" and
+            _place_last_field(g, x["recv"]) == "trace"]
+
+
+def tracing_emitters(F):
+    """Compiler functions that append the opcode they are given to program.bytecode *and* record a program.trace entry
+    for it (today: push_instruction) - found by what they do"""
+    out = []
+    for g in F.fns:
+        if not g.hir or g.is_closure or not g.short.startswith("compiler::"):
+            continue
+        ins = _trace_inserts(g)
+        if not ins:
+            continue
+        pids = _param_ids(g.hir["params"])
+        convs = [c for c in _opcode_conversions(g)]
+        mine = []
+        for c in convs:
+            src = c["e"] if c["k"] == "cast" else ([c["recv"]] if c["k"] == "mcall" else c["args"])[0]
+            if hir_local_id(hu.strip_all(src)) in pids:
+                fl = _byte_flow(F, g, c)
+                if fl and all(f_[0] == "write" and f_[1] is g for f_ in fl):
+                    mine.append(c)
+        if mine:
+            out.append((g, ins, mine))
+    return out
+
+
+def rule_t(F):
+    """C15.T: a Timeout is raised before the opcode is dispatched, so *every* instruction of the program can be the failing
+    one and needs its own entry in program.trace. The only code that records an entry is the tracing emitter
+    (push_instruction: trace.insert(position, self.trace()) + push of the opcode). Hence every byte made from an
+    `Instruction` value (`X as u8`, transmute, into) that is written to program.bytecode - in any function or helper,
+    directly, through a local, a parameter or a return value - must be written by the tracing emitter; there is no
+    exemption for opcodes whose interpreter arm cannot fail. Operand bytes (write_to_vec of non-opcode data, jump patches)
+    are not opcodes."""
+    res = []
+    ems = tracing_emitters(F)
+    if not ems:
+        raise AnchorMissing("function that pushes an opcode to program.bytecode and records its program.trace entry")
+    em_fns = set()
+    for g, ins, convs in ems:
+        em_fns.add(g.short)
+        anc = hu.control_ancestors(g.hir["body"])
+        cond = [x for x in ins if anc.get(id(x))] + [c for c in convs if anc.get(id(c))]
+        key = "C15/T/%s/records-a-trace-entry-for-the-opcode-it-pushes" % g.name
+        if cond:
+            res.append(undecided("C15.T", key, g.loc(cond[0].get("ln")), "the trace entry or the opcode push is conditional"))
+        else:
+            res.append(ok("C15.T", key, g.loc(), "trace.insert(..) and the push of the opcode parameter are unconditional"))
+    # premise: a failure can be raised before dispatch (the budget test), so no opcode is exempt
+    pre = [r for r in rule_p(F) if r["key"].startswith("C15/P/pre-dispatch/")]
+    why = ("the interpreter raises an error (the instruction budget, Timeout) before it dispatches on the opcode, so every "
+           "instruction can be the failing one" if pre else "every instruction needs an entry")
+    # every other conversion of an Instruction to a byte
+    from rules.c10 import instr_ctor
+    emitting, involved = [], set()
+    for g in F.fns:
+        if not g.hir or g.is_closure or g.short in em_fns:
+            continue
+        calls = [x for x in hir_walk(g.hir["body"]) if x.get("k") in ("call", "mcall") and set(hir_callee(x)) & em_fns]
+        if calls:
+            emitting.append((g, len(calls)))
+        for c in _opcode_conversions(g):
+            src = c["e"] if c["k"] == "cast" else c if _is_instr_ty(c.get("ty")) else ([c["recv"]] if c["k"] == "mcall" else c["args"])[0]
+            v = instr_ctor(src)
+            what = v if isinstance(v, str) else "opcode"
+            for kind, h, ln, how in _byte_flow(F, g, c):
+                involved |= {g.short, h.short}
+                n = sum(1 for r in res if r["key"].startswith("C15/T/%s/untraced-%s" % (h.name, what)))
+                key = "C15/T/%s/untraced-%s%s" % (h.name, what, "" if n == 0 else "#%d" % n)
+                if kind == "write":
+                    res.append(bad("C15.T", key, h.loc(ln),
+                                   "%s appends the opcode byte of %s to program.bytecode by %s, not through %s: the instruction gets no "
+                                   "entry in program.trace. %s - when the budget runs out on this instruction (or it fails otherwise) the "
+                                   "error has no trace[0] for its card: trace[0] is the caller's call card (or the program entry), the "
+                                   "call chain is shifted by one"
+                                   % (h.name, what if what != "opcode" else "an instruction", how,
+                                      "/".join(sorted(x.rsplit("::", 1)[-1] for x in em_fns)), why[0].upper() + why[1:])))
+                else:
+                    res.append(undecided("C15.T", key, h.loc(ln), "an opcode byte made in %s is %s: cannot tell whether it reaches "
+                                         "program.bytecode without a trace entry" % (g.name, how)))
+    for g, n in sorted(emitting, key=lambda t: t[0].short):
+        if g.short in involved:
+            continue
+        key = "C15/T/%s/opcodes-through-the-tracing-emitter" % g.name
+        if any(r["key"] == key for r in res):
+            key += "#" + g.short
+        res.append(ok("C15.T", key, g.loc(), "%d opcode emission(s), all through the tracing emitter; no other Instruction->byte conversion" % n))
     return res
 
 
@@ -611,9 +1380,8 @@ def rule_r(F):
     card: the outer loop then locates the error at the native's call card."""
     from cao.facts import DefUse, callee_names
     from cao import mirutil as mu
-    from rules.c10 import dispatch_fn as _dispatch_fn
     res = []
-    loop = _dispatch_fn(F)
+    loop = interp(F).driver
     # callers of the interpreter loop other than Vm::run (transitively inside impl Vm)
     reentry = []
     for g in F.fns:
@@ -665,4 +1433,5 @@ RULES = [
     Rule("C15.K", rule_k, 4, "compile errors raised by Compiler carry the current card"),
     Rule("C15.G", rule_g, 30, "a card's own instructions are recorded under its own index"),
     Rule("C15.F", rule_f, 1, "every active call frame contributes one trace entry"),
+    Rule("C15.T", rule_t, 12, "every opcode written to the bytecode gets a trace entry (no exemption: Timeout can hit any instruction)"),
 ]
